@@ -75,6 +75,12 @@ def map_case(cid, clsname, rows, queries, how="ctor", rng=None):
             import warnings
             warnings.simplefilter("ignore")
             m = build_map(clsname, rows, how, rng)
+            if rng is not None and rng.random() < 0.4:
+                # the map has been EXPORTED (data frame, default units) before it is used: exporting reads the map
+                m.to_pandas()
+                if rng.random() < 0.5:
+                    m.to_pandas()
+                c["exported"] = True
             # interpolation is asked in the caller's order (chromosome labels interleaved) and BEFORE anything else touches
             # the map; the distance functions below document grouped input and get the grouped listing
             rc = np.array([q[0] for q in queries], dtype="int64"); rp = np.array([q[1] for q in queries], dtype="int64")
